@@ -1,6 +1,8 @@
 package main
 
 import (
+	"crypto/sha256"
+	"encoding/hex"
 	"encoding/json"
 	"fmt"
 	"io/fs"
@@ -42,6 +44,7 @@ func (a *actor) attached() bool { return !a.isView() || (a.located && a.loc == a
 //	admin@/    every actor is the administrator, umask 022; views created while the parent's cwd is "/"
 //	users@/    V1 acts as u1 (umask 027), V2 as u2 (umask 077), set through the views during setup
 //	admin@/p/q views created while the parent's cwd is "/p/q" (inherited by value), parent then back to "/"
+//	core-...   the same with the reduced "core" alphabet, explored one level deeper
 type sys struct {
 	variant string
 	tier    string
@@ -60,11 +63,13 @@ type sys struct {
 
 func newSys(variant, tier string) *sys {
 	s := &sys{variant: variant, tier: tier}
-	s.specs = actorSpecs(tier)
+	s.specs = actorSpecs(tier, isCore(variant))
 	s.ops = buildOps(s.specs)
 
 	return s
 }
+
+func isCore(variant string) bool { return strings.HasPrefix(variant, "core-") }
 
 func (s *sys) NumOps() int { return len(s.ops) }
 func (s *sys) Close()      {}
@@ -144,7 +149,7 @@ func (s *sys) reset() error {
 		return fmt.Errorf("administrator is not called root")
 	}
 
-	vs := strings.SplitN(s.variant, "@", 2)
+	vs := strings.SplitN(strings.TrimPrefix(s.variant, "core-"), "@", 2)
 	if len(vs) != 2 {
 		return fmt.Errorf("bad system name %q", s.variant)
 	}
@@ -227,7 +232,19 @@ func (s *sys) reset() error {
 		s.locate(a)
 
 		if !a.attached() {
-			return fmt.Errorf("view %s is not rooted at %s after setup", a.name, a.dir)
+			// Sub(dir) did not return a view of dir: that is the property itself
+			got := "a directory the parent cannot reach"
+			if a.located {
+				got = "rooted at " + a.loc
+			}
+
+			s.pending = append(s.pending, bfs.Viol{
+				Sig: map[string]string{
+					"actor": a.kind, "call": "setup:Sub", "path": "abs-clean", "phase": "before-chdir",
+					"kind": "tree", "want": "rooted at " + a.dir, "got": got, "user": "admin", "viewroot": "n/a",
+				},
+				Detail: `{"note":"the root node of the view returned by Sub is not the directory the parent calls dir (checked with the injected VerifRootIs hook)"}`,
+			})
 		}
 	}
 
@@ -289,7 +306,14 @@ func (s *sys) key(extra string) string {
 
 	b.WriteString(extra)
 
-	return b.String()
+	if s.trace != nil {
+		return b.String()
+	}
+
+	// the search only needs identity: ship a digest instead of a kilobyte per transition
+	h := sha256.Sum256([]byte(b.String()))
+
+	return hex.EncodeToString(h[:16])
 }
 
 func actual(a *actor) (user string, umask uint32, cwd string) {
@@ -454,11 +478,12 @@ func (s *sys) normTwin(a *actor, c fsx.Call, r result) result {
 	return n
 }
 
-// observe reads p through v: Lstat, then the listing or the content.
-func observe(v avfs.VFS, p string, maskName bool) string {
+// observe reads p through v: Lstat, then the listing or the content. It
+// returns the Lstat outcome kind and the full observation.
+func observe(v avfs.VFS, p string, maskName bool) (kind, full string) {
 	r := exec(v, fsx.Call{Op: "Lstat", A: p}, nil)
 	if r.Kind != "ok" {
-		return r.Kind
+		return r.Kind, r.Kind
 	}
 
 	if maskName {
@@ -474,7 +499,7 @@ func observe(v avfs.VFS, p string, maskName bool) string {
 		r2 = exec(v, fsx.Call{Op: "ReadFile", A: p}, nil)
 	}
 
-	return out + " | " + r2.Kind + ":" + r2.Val
+	return "ok", out + " | " + r2.Kind + ":" + r2.Val
 }
 
 // outsideChanged lists the dump lines that differ between before and after and
@@ -497,6 +522,18 @@ func outsideChanged(before, after []string, region string) []string {
 		}
 	}
 
+	// names outside the region that are hard links of a file inside it: their
+	// link count, bytes, mode and class label legitimately change with it
+	linked := map[string]bool{}
+
+	for _, set := range [][]string{before, after} {
+		for _, l := range set {
+			if lb := labelOf(l); lb != "" && labels[lb] {
+				linked[pathOf(l)] = true
+			}
+		}
+	}
+
 	var out []string
 
 	for _, x := range []struct {
@@ -508,7 +545,7 @@ func outsideChanged(before, after []string, region string) []string {
 				continue
 			}
 
-			if lb := labelOf(l); lb != "" && labels[lb] {
+			if linked[pathOf(l)] {
 				continue
 			}
 
@@ -627,7 +664,7 @@ func (s *sys) Step(i int) bfs.StepResult {
 
 		sig := map[string]string{
 			"actor": x.kind, "call": c.Op, "path": pclass, "phase": phase, "kind": kind,
-			"want": clip(want), "got": clip(got), "user": userClass,
+			"want": clip(want), "got": clip(got), "user": userClass, "viewroot": s.rootSearchable(x, before),
 		}
 
 		for i := 0; i+1 < len(extra); i += 2 {
@@ -681,25 +718,37 @@ func (s *sys) Step(i int) bfs.StepResult {
 	diverged := !treesEqual
 
 	// ---- outcome, value
+	// Remove / RemoveAll / Rename whose operand is the view's root act on the
+	// directory entry of dir, which lives OUTSIDE dir (the permission to remove
+	// it is that of dir's parent): "as the parent on the prefixed path" and
+	// "nothing outside dir is reachable" pull in different directions, and a
+	// root that refuses to be removed, or is emptied and kept, is as defensible
+	// as the parent's removal of the entry. Such calls are judged only on: no
+	// panic / deadlock that the parent does not share, nothing outside dir changed.
+	rootEntry := x.isView() && (c.Op == "Remove" || c.Op == "RemoveAll" || c.Op == "Rename") &&
+		(viewAbs(x.cwd, c.A) == "/" || (c.Op == "Rename" && viewAbs(x.cwd, c.B) == "/"))
+	lenient := rootEntry && !rr.poisoned()
+	kindsEqual := nr.Kind == nt.Kind
+
 	switch mode {
 	case "full":
 		switch {
-		case nr.Kind != nt.Kind:
-			kind := "outcome"
-			got := nr.Kind
+		case lenient:
+		case !kindsEqual:
+			kind, want, got := "outcome", nt.Kind, nr.Kind
 
 			switch nr.Kind {
 			case "PANIC":
-				kind, got = "panic", panicClass(rr.Msg)
+				kind, want, got = "panic", "no-panic", panicClass(rr.Msg)
 			case "DEADLOCK":
-				kind = "deadlock"
+				kind, want = "deadlock", "no-deadlock"
 			}
 
 			if s.reachedOutside(x, c, nr, nt) {
 				kind = "outside-read"
 			}
 
-			report(kind, nt.Kind, got, "the view call and the parent call on the prefixed path end differently")
+			report(kind, want, got, "the view call and the parent call on the prefixed path end differently")
 
 			if !readOnly[c.Op] && c.Op != "Getwd" {
 				diverged = true
@@ -721,14 +770,9 @@ func (s *sys) Step(i int) bfs.StepResult {
 		}
 	case "detached":
 		if rr.poisoned() && !(hasTwin && tr.Kind == rr.Kind) {
-			kind, got := "panic", panicClass(rr.Msg)
+			kind, want, got := "panic", "no-panic", panicClass(rr.Msg)
 			if rr.Kind == "DEADLOCK" {
-				kind, got = "deadlock", "DEADLOCK"
-			}
-
-			want := "returns"
-			if hasTwin {
-				want = tr.Kind
+				kind, want, got = "deadlock", "no-deadlock", "DEADLOCK"
 			}
 
 			report(kind, want, got, "call through a view whose root directory was renamed or removed")
@@ -771,7 +815,7 @@ func (s *sys) Step(i int) bfs.StepResult {
 
 			diverged = true
 		case mode == "full":
-			if nr.Kind == nt.Kind { // otherwise already reported as outcome
+			if kindsEqual { // otherwise already reported as outcome
 				report("value", m.want, m.got, "the actor's own User/UMask/Getwd after the call is not what the parent's would be")
 			}
 
@@ -782,8 +826,9 @@ func (s *sys) Step(i int) bfs.StepResult {
 	}
 
 	// ---- tree equality
-	if mode == "full" && !treesEqual {
-		report("tree", "equal", treeClass(tafter, after), "parent tree differs from the twin's after the call")
+	// (when the outcomes already differ the tree difference is its consequence)
+	if mode == "full" && !treesEqual && kindsEqual && !lenient {
+		report("tree", "equal", treeClass(tafter, after), "same outcome, but the parent tree differs from the twin's after the call")
 	}
 
 	// ---- nothing outside dir changes
@@ -818,7 +863,7 @@ func (s *sys) Step(i int) bfs.StepResult {
 
 	key := s.key("")
 	if diverged {
-		key += "\n!diverged after " + s.OpString(i)
+		key += "\n!diverged"
 	}
 
 	res := bfs.StepResult{
@@ -851,6 +896,12 @@ func (s *sys) reachedOutside(a *actor, c fsx.Call, nr, nt result) bool {
 		return false
 	}
 
+	// with an unsearchable root the answer for the clamped path is a refusal and
+	// any other answer would "look like" the outside one: not decidable this way
+	if s.rootSearchable(a, s.lastDump) != "searchable" {
+		return false
+	}
+
 	ec, outside := s.escapedCall(a, c)
 	if !outside {
 		return false
@@ -861,7 +912,7 @@ func (s *sys) reachedOutside(a *actor, c fsx.Call, nr, nt result) bool {
 
 	same := func(p, q result) bool { return p.Kind == q.Kind && p.Val == q.Val }
 
-	return same(nr, er) && !same(nt, er)
+	return er.Kind == "ok" && same(nr, er) && !same(nt, er)
 }
 
 // visibility: after a change through x, every other attached actor that can
@@ -895,14 +946,76 @@ func (s *sys) visibility(x *actor, c, tc fsx.Call, report func(kind, want, got, 
 
 			s.mirror(y)
 
-			want := observe(s.T, tp, y.isView() && py == "/")
-			got := observe(y.fs, py, y.isView() && py == "/")
+			wk, want := observe(s.T, tp, y.isView() && py == "/")
+			gk, got := observe(y.fs, py, y.isView() && py == "/")
 
 			if want != got {
-				report("visibility", want, got,
-					fmt.Sprintf("%s reads %q after the change; the twin parent (as %s) reads %q", y.name, py, y.user, tp),
-					"observer", y.kind)
+				cw, cg := "Lstat:"+wk, "Lstat:"+gk
+				if wk == gk {
+					cw, cg = "same-attributes-and-content", "different-attributes-or-content"
+				}
+
+				report("visibility", cw, cg,
+					fmt.Sprintf("%s reads %q after the change and sees %q; the twin parent (as %s) reads %q and sees %q", y.name, py, got, y.user, tp, want),
+					"observer", y.kind, "viewroot", s.rootSearchable(y, s.lastDump))
 			}
 		}
 	}
+}
+
+// rootSearchable classifies whether the acting user has search permission on
+// the view's root directory and on the directories above it (the parent checks
+// them while walking the prefixed path): searchable | root-unsearchable |
+// ancestor-unsearchable | n/a (parent actor, unreachable root).
+func (s *sys) rootSearchable(a *actor, dump []string) string {
+	if !a.isView() || !a.located {
+		return "n/a"
+	}
+
+	u := s.users[a.user]
+	if u == nil || u.IsAdmin() {
+		return "searchable"
+	}
+
+	base := a.base()
+	res := "searchable"
+
+	for _, l := range dump {
+		f := strings.Fields(l)
+		if len(f) < 4 || f[1] != "d" {
+			continue
+		}
+
+		p := pathOf(l)
+		if p == "/" || !under(base, p) {
+			continue // the walk never checks its own starting directory "/"
+		}
+
+		var mode, uid, gid int
+
+		if _, err := fmt.Sscanf(f[2], "%o", &mode); err != nil {
+			continue
+		}
+
+		if _, err := fmt.Sscanf(f[3], "%d:%d", &uid, &gid); err != nil {
+			continue
+		}
+
+		switch {
+		case uid == u.Uid():
+			mode >>= 6
+		case gid == u.Gid():
+			mode >>= 3
+		}
+
+		if mode&1 == 0 {
+			if p == base {
+				return "root-unsearchable"
+			}
+
+			res = "ancestor-unsearchable"
+		}
+	}
+
+	return res
 }
